@@ -235,7 +235,7 @@ def in_process_pool(mods, record=None):
 
 
 def run_format_files(mods, d: Path, lib_src: str, client_src: str, passes: int, record=None, real_pool=False,
-                     preserved=("client.py",), extra_files=()):
+                     preserved=("client.py",), extra_files=(), relative=False):
     (d / "lib.py").write_text(lib_src)
     (d / "client.py").write_text(client_src)
     for name, text in extra_files:
@@ -245,6 +245,15 @@ def run_format_files(mods, d: Path, lib_src: str, client_src: str, passes: int, 
         if real_pool:
             mods["main"].format_files([d / "lib.py"], preserved_filenames=[d / p for p in preserved], n_cores=1,
                                       max_passes=passes)
+        elif relative:      # preserved files named relative to the working directory (API use)
+            cwd = os.getcwd()
+            os.chdir(d)
+            try:
+                with in_process_pool(mods, record):
+                    mods["main"].format_files([Path("lib.py")], preserved_filenames=[Path(p) for p in preserved],
+                                              n_cores=1, max_passes=passes)
+            finally:
+                os.chdir(cwd)
         else:
             with in_process_pool(mods, record):
                 mods["main"].format_files([d / "lib.py"], preserved_filenames=[d / p for p in preserved],
@@ -376,11 +385,12 @@ def check(run: common.Run):
     fcases = []
     other = "import lib\nprint(lib.unusedVar)\n"
     sel = pairs[:: (7 if quick else 1)]
-    for form, subset, c in sel:
+    for j, (form, subset, c) in enumerate(sel):
         for preserved, extra in ((("client.py",), ()), (("client.py", "other.py"), (("other.py", other),)),
                                  (("client.py", "lib.py"), ()), (("lib.py",), ())):
             rec = []
-            run_format_files(mods, tree, LIB, c, 1, record=rec, preserved=preserved, extra_files=extra)
+            run_format_files(mods, tree, LIB, c, 1, record=rec, preserved=preserved, extra_files=extra,
+                             relative=(j % 2 == 1))
             texts = {"client.py": c, "lib.py": LIB, "other.py": other}
             term = glist([f"({gname(p.replace('.py', ''))}, {t_pyfile(texts[p])})" for p in preserved])
             for fname, P in rec:
